@@ -50,6 +50,19 @@ func runC12(r *Run) {
 		}
 		n := checkErrorsFailTheMessage(r, "R9", fns, "the ledger writes made before the failing step are committed")
 		r.Floor("R9", "error-returning keeper calls in the DAO message path", n, 6)
+		r.Rule("R11", "SHAPE.genesis-is-validated: the module's GenesisState.Validate can fail (it has a failure exit) — InitGenesis takes duplicates at face value (a second entry for an address overwrites the balance while the total adds both), so without validation a genesis document can start the chain with total ≠ sum of shares")
+		if gv, ok := r.P.FnOK("(x/ucdao/types.GenesisState).Validate"); ok && gv.Synthetic == "" {
+			canFail := false
+			eachInstr(gv, func(in ssa.Instruction) {
+				if ret, isR := in.(*ssa.Return); isR && classifyExit(ret) != ExitSuccess {
+					canFail = true
+				}
+			})
+			r.Check(canFail, "R11", fnID(gv)+"#can-fail", r.P.Pos(fnPos(gv)), "has a failure exit",
+				"the DAO module's genesis validation returns nil unconditionally: duplicate holders or repeated denominations are accepted and the imported ledger starts with total ≠ sum of balances")
+		} else {
+			r.Bad("R11", "anchor/ucdao GenesisState.Validate", "", "not found")
+		}
 		r.Rule("R10", "SHAPE.index-decided-by-balances-only: setHoldersIndex lists an address exactly when its DAO balances are not all zero — every branch condition in it is built from GetAccountBalances(addr).IsZero() and holdersStore.Has(key) alone; a condition that consults anything else (the bank keeper's blocked addresses, account types) makes the index differ from the set of non-zero accounts")
 		if sh, ok := r.P.FnOK("(x/ucdao/keeper.BaseKeeper).setHoldersIndex"); ok {
 			allowed := map[string]bool{"GetAccountBalances": true, "IsZero": true, "Has": true, "MustLengthPrefix": true, "getHoldersStore": true, "KVStore": true, "NewStore": true}
@@ -475,6 +488,31 @@ func runC12(r *Run) {
 			}
 		})
 		r.Check(okShape && nCoin == 1, "R6", fnID(fn)+"#amount-is-floor-of-share", P.Pos(fnPos(fn)), "amount = TruncateInt(balance × ratio)", "the amount transferred by a ratio transfer is not on every path TruncateInt(balance × msg.Ratio): some holdings move by a different amount than the stated ratio")
+		// a share that rounds down to zero is not handed to the keeper: TransferOwnership's credit step rejects any list
+		// containing a zero coin, so one dust denomination (which anybody can push onto a holder) would block the transfer
+		// of all the others
+		pos, _ := guardPassEdges(fn, func(cond ssa.Value) (bool, bool) {
+			c, ok := cond.(*ssa.Call)
+			if !ok || len(c.Call.Args) == 0 || !backSlice(c.Call.Args[0]).HasCall(func(g CallInfo) bool { return g.Name == "TruncateInt" }) {
+				return false, false
+			}
+			switch callInfo(c).Name {
+			case "IsPositive":
+				return true, true
+			case "IsZero":
+				return false, true
+			}
+			return false, false
+		})
+		var wz []ssa.Instruction
+		for _, c := range findCalls(fn, func(ci CallInfo) bool { return ci.Name == "NewCoin" }) {
+			cc := c
+			if w := (PathQuery{Fn: fn, Target: func(in ssa.Instruction) bool { return in == ssa.Instruction(cc) }, DelEdge: edgeSet(pos)}).Search(); w != nil {
+				wz = w
+			}
+		}
+		r.Check(wz == nil && len(pos) > 0, "R6", fnID(fn)+"#zero-shares-left-out", P.Pos(fnPos(fn)), "a coin is built only over the positive-amount edge",
+			"the ratio handler hands the keeper a coin for every held denomination, also when its share rounds down to zero: the keeper rejects lists containing a zero coin, so a holder with one dust denomination cannot transfer by ratio at all — and anybody can push such dust onto a holder", P.witness(wz)...)
 	} else {
 		r.Bad("R6", "anchor/TransferOwnershipWithRatio", "", "not found")
 	}
